@@ -261,6 +261,21 @@ impl<A: Tracker> Pie<A> {
   }
 }
 
+/// Verification hook (feature `gohla_pie_verif`): read-only view of the dependency store.
+#[cfg(feature = "gohla_pie_verif")]
+pub mod verif {
+  pub use crate::store::verif::{VerifEdge, VerifNode, VerifStoreVisitor};
+  pub use pie_graph::Node;
+}
+
+#[cfg(feature = "gohla_pie_verif")]
+impl<A> Pie<A> {
+  /// Verification hook: read-only walk over the dependency store.
+  pub fn verif_visit_store(&self, visitor: &mut dyn verif::VerifStoreVisitor) {
+    self.0.verif_visit_store(visitor);
+  }
+}
+
 /// A session in which builds are executed.
 #[repr(transparent)]
 pub struct Session<'p>(pie::SessionInternal<'p>);
